@@ -13,7 +13,7 @@ inductive Spec (α : Type) where
   | empty                                   -- EmptySpecifier()
   | any                                     -- AnySpecifier()
   | range (r : Range α)                     -- RangeSpecifier(...)
-  | union (rs : List (Range α)) (text : Option String)  -- UnionSpecifier(...)
+  | union (rs : List (Range α)) (text : Option (Clause α))  -- UnionSpecifier(...)
 deriving Repr, DecidableEq
 
 namespace Spec
